@@ -49,6 +49,12 @@ def plan(tier, seed):
                           steps=2000 if tier == 'thorough' else 350,
                           auto=(k % 4 == 3), dynamic=(k % 4 in (1, 3)),
                           hashseed=k))
+    # histories in which the set of variables changes all the time
+    for k in range(8 if tier == 'thorough' else 2):
+        specs.append(dict(kind='random', sub=100 + k, n=4 + k % 3,
+                          steps=2000 if tier == 'thorough' else 400,
+                          auto=False, dynamic=False, varsets=True,
+                          hashseed=k))
     # instances beyond truth tables (12-70 variables), see vf/big.py
     from vf import big
     specs.extend(big.specs(tier, seed, 'C01'))
@@ -386,7 +392,14 @@ def _random_history(ctx, spec, rng, names, kind, reg, dynamic):
                 swap=3 if kind == 'bdd' else 0, sift=1, reorder_to=1,
                 dup=1, clone=2 if kind == 'bdd' else 0, tight=4,
                 **{'not': 2})
-    if kind == 'bdd' and not dynamic and spec['sub'] % 4 == 2:
+    if spec.get('varsets'):
+        w.build_names = set(rng.sample(names, max(1, len(names) - 2)))
+        # (a newly declared variable is at the bottom; the reorderings
+        # move it above nodes before it is removed again)
+        menu = dict(build=5, apply=8, ite=3, drop=4, gc=1, undeclare=5,
+                    declare=4, swap=3, reorder_to=3, **{'not': 1})
+        ctx.counters['histories_with_changing_variables'] += 1
+    elif kind == 'bdd' and not dynamic and spec['sub'] % 4 == 2:
         # connectives in a manager whose set of variables changes: the
         # functions are built over all names but one or two, unused
         # variables (above and between the used ones) are removed while
